@@ -311,6 +311,33 @@ def shape(draw):
     return {"comps": comps, "links": list(draw(st.permutations(links))), "order": list(draw(st.permutations(names)))}
 
 
+@st.composite
+def long_chain(draw):
+    """long acyclic chains: every hop needs its own connect sweeps when infos/data travel against the list order"""
+    n = draw(st.integers(8, 45))
+    mode = draw(st.sampled_from(["data", "info-down", "info-up"]))
+    comps, links = [], []
+    for k in range(n):
+        c = {"name": f"K{k}", "start": 0, "ins": [], "outs": []}
+        if k > 0:
+            c["ins"].append({"name": "i0", "info": "init", "pull": True})
+            links.append([f"K{k - 1}", "o0", f"K{k}", "i0"])
+        if k < n - 1:
+            c["outs"].append({"name": "o0", "info": "init", "data": "now" if k == 0 else "after_pull"})
+            if k > 0 and mode == "info-down":
+                c["outs"][0]["info"] = "rule_in:i0"  # metadata handed downstream hop by hop
+            if k > 0 and mode == "info-up":
+                c["ins"][0]["info"] = "rule_out:o0"  # metadata handed upstream hop by hop (fixed by the sink)
+        comps.append(c)
+    names = [c["name"] for c in comps]
+    order = draw(st.sampled_from(["forward", "reversed", "shuffled"]))
+    if order == "reversed":
+        names = names[::-1]
+    elif order == "shuffled":
+        names = list(draw(st.permutations(names)))
+    return {"comps": comps, "links": links, "order": names, "chain": [n, mode, order]}
+
+
 # ------------------------------------------------------------------ start offset x delay x push-based (F10)
 def enum_offset_delay(tier):
     chains = [
@@ -351,5 +378,6 @@ def check_offset_delay(spec, ctx):
 def parts():
     return [
         Part("shapes", check, strategy=shape(), budget={"quick": 2500, "thorough": 120000}, fuzz={"thorough": 20000}),
+        Part("long_chains", check, strategy=long_chain(), budget={"quick": 60, "thorough": 1500}),
         Part("offset_delay_enum", check_offset_delay, enumerate=enum_offset_delay, exhaustive=True),
     ]
